@@ -4,6 +4,9 @@ import DaeVerif.C17.MergeProofs
 import DaeVerif.C17.TermProofs
 import DaeVerif.C17.ConfigProofs
 import DaeVerif.C17.DefaultsProofs
+import DaeVerif.C17.PipelineProofs
+import DaeVerif.C17.OptProofs
+import DaeVerif.C17.WrittenProofs
 /-! Helper lemmas for C17 live in `ParserProofs`, `LexProofs`, `MergeProofs`, `ConfigProofs`;
 this file adds the few that combine them. -/
 namespace DaeVerif.C17
